@@ -12,6 +12,12 @@ from plasTeX.Packages.hyperref import hypertarget, hyperlink
 from plasTeX.Packages.article import appendix
 
 def ProcessOptions(options, document):
+    # As the LaTeX class does, load the packages some of whose macros get
+    # overlay-aware variants below: a later \usepackage of one of them must
+    # not put the plain macro back
+    for name in ['color', 'graphicx', 'hyperref']:
+        document.context.loadPythonPackage(document, name)
+
     # We add to the imager preamble some code removing the background color
     # and navigation symbols that would otherwise prevent proper cropping.
     extras = document.userdata.get('imager_preamble_extra', [])
@@ -138,37 +144,53 @@ class overlayarea(Environment):
 class overprint(Environment):
     args = 'width'
 
-List.item.args = '< alert >' + List.item.args + '< alert2 >'
-textbf.args = '< overlay >' + textbf.args
-textit.args = '< overlay >' + textit.args
-textsl.args = '< overlay >' + textsl.args
-textrm.args = '< overlay >' + textrm.args
-textsf.args = '< overlay >' + textsf.args
-color.args = '< overlay >' + color.args
-label.args = '< overlay >' + label.args
-includegraphics.args = '< overlay >' + includegraphics.args
-newcommand.args = '< overlay >' + newcommand.args
-renewcommand.args = '< overlay >' + renewcommand.args
-newenvironment.args = '< overlay >' + newenvironment.args
-renewenvironment.args = '< overlay >' + renewenvironment.args
-itemize.args = '[ overlay ]'
-enumerate_.args = '[ overlay ] [ template ]'
-description.args = '[ overlay ] [ longtext ]'
-section.args = '< overlay >' + section.args
-subsection.args = '< overlay >' + subsection.args
-subsubsection.args = '< overlay >' + subsubsection.args
-part.args = '< overlay >' + part.args
-thebibliography.bibitem.args = '< overlay >' + thebibliography.bibitem.args
-appendix.args = '< overlay >' + appendix.args
-hypertarget.args = '< overlay >' + hypertarget.args
-hyperlink.args = '< overlay >' + hyperlink.args + '< overlay2 >'
-tableofcontents.args = '[ options:dict ]' + tableofcontents.args
-abstract.args = '< overlay >' + abstract.args
-verse.args = '< overlay >' + verse.args
-quotation.args = '< overlay >' + quotation.args
-quote.args = '< overlay >' + quote.args
-footnote.args = '< overlay > [ options:dict ] self' # modify options int -> dict
-footnotetext.args = '< overlay > [ options:dict ] self' # modify options int -> dict
+def overlayaware(base, args=None, **members):
+    """
+    Variant of a standard macro that takes beamer's overlay specifications
+
+    The variants are classes of this package: only documents that load it
+    get them.  (Changing `args` on the standard classes themselves would
+    change the macros of every other document of the same interpreter, and
+    would not even reach a class whose arguments were compiled already.)
+
+    """
+    if args is not None:
+        members['args'] = args
+    members['__module__'] = __name__
+    return type(base.__name__, (base,), members)
+
+item = overlayaware(List.item, '< alert >' + List.item.args + '< alert2 >')
+textbf = overlayaware(textbf, '< overlay >' + textbf.args)
+textit = overlayaware(textit, '< overlay >' + textit.args)
+textsl = overlayaware(textsl, '< overlay >' + textsl.args)
+textrm = overlayaware(textrm, '< overlay >' + textrm.args)
+textsf = overlayaware(textsf, '< overlay >' + textsf.args)
+color = overlayaware(color, '< overlay >' + color.args)
+label = overlayaware(label, '< overlay >' + label.args)
+includegraphics = overlayaware(includegraphics, '< overlay >' + includegraphics.args)
+newcommand = overlayaware(newcommand, '< overlay >' + newcommand.args)
+renewcommand = overlayaware(renewcommand, '< overlay >' + renewcommand.args)
+newenvironment = overlayaware(newenvironment, '< overlay >' + newenvironment.args)
+renewenvironment = overlayaware(renewenvironment, '< overlay >' + renewenvironment.args)
+itemize = overlayaware(itemize, '[ overlay ]', item=item)
+enumerate_ = overlayaware(enumerate_, '[ overlay ] [ template ]', item=item)
+description = overlayaware(description, '[ overlay ] [ longtext ]', item=item)
+section = overlayaware(section, '< overlay >' + section.args)
+subsection = overlayaware(subsection, '< overlay >' + subsection.args)
+subsubsection = overlayaware(subsubsection, '< overlay >' + subsubsection.args)
+part = overlayaware(part, '< overlay >' + part.args)
+thebibliography = overlayaware(thebibliography,
+    bibitem=overlayaware(thebibliography.bibitem, '< overlay >' + thebibliography.bibitem.args))
+appendix = overlayaware(appendix, '< overlay >' + appendix.args)
+hypertarget = overlayaware(hypertarget, '< overlay >' + hypertarget.args)
+hyperlink = overlayaware(hyperlink, '< overlay >' + hyperlink.args + '< overlay2 >')
+tableofcontents = overlayaware(tableofcontents, '[ options:dict ]' + tableofcontents.args)
+abstract = overlayaware(abstract, '< overlay >' + abstract.args)
+verse = overlayaware(verse, '< overlay >' + verse.args)
+quotation = overlayaware(quotation, '< overlay >' + quotation.args)
+quote = overlayaware(quote, '< overlay >' + quote.args)
+footnote = overlayaware(footnote, '< overlay > [ options:dict ] self') # modify options int -> dict
+footnotetext = overlayaware(footnotetext, '< overlay > [ options:dict ] self') # modify options int -> dict
 
 class resetcounteronoverlays(Command):
     args = 'counter'
